@@ -425,6 +425,10 @@ impl WorkerTree {
     }
 
     fn insert_source(&mut self, path: PathBuf, output: Option<PathBuf>) {
+        if let Some(output) = output.as_ref() {
+            // the source exists (again): do not clean up the output it is about to produce
+            self.remove_files.retain(|remove_path| remove_path != output);
+        }
         let node_index = self.graph.add_node(if let Some(output) = output {
             WorkItem::new(path.clone(), output)
         } else {
